@@ -15,20 +15,21 @@ vars == <<l, S, tainted, pid, nviol, cnt>>
 
 Bump(c, ks) == [k \in DOMAIN c \cup ks |-> (IF k \in DOMAIN c THEN c[k] ELSE 0) + (IF k \in ks THEN 1 ELSE 0)]
 
-Init == /\ l = 1 /\ S = InitState /\ tainted = FALSE /\ pid = -1 /\ nviol = 0
+Init == /\ l = 1 /\ S = InitState /\ tainted = {} /\ pid = -1 /\ nviol = 0
         /\ cnt = [x \in {} |-> 0]
 
 Next ==
   /\ l <= Len(Rec)
   /\ LET e == Rec[l]
          R == LawStep(S, e)
-         report == ~tainted /\ R.V # {}
+         newV == {v \in R.V : v[1] \notin tainted}     \* first violation per property and program
+         report == newV # {}
      IN /\ S' = R.S
         /\ pid' = IF e.op = "reset" THEN e.pid ELSE pid
-        /\ tainted' = IF e.op = "reset" THEN FALSE ELSE (tainted \/ R.V # {})
+        /\ tainted' = IF e.op = "reset" THEN {} ELSE (tainted \cup {v[1] : v \in R.V})
         /\ nviol' = nviol + (IF report THEN 1 ELSE 0)
         /\ cnt' = Bump(cnt, Exercised(S, e))
-        /\ (report => PrintT(<<"LAWVIOL", pid, e.i, e.op, R.V>>))
+        /\ (report => PrintT(<<"LAWVIOL", pid, e.i, e.op, newV>>))
         /\ (l = Len(Rec) => PrintT(<<"DONE", Len(Rec), nviol', cnt'>>))
   /\ l' = l + 1
 
